@@ -151,6 +151,14 @@ def model(cfg, ctx, group, args):
                 if form == ref_name:
                     continue
                 out.append(('%s.%s == %s.%s' % (fam, form, fam, ref_name), o == ref, '%s.%s=%r but %s.%s=%r' % (fam, form, o, fam, ref_name, ref)))
+        # amounts that are negative or above u32::MAX have no inherent twin (the inherent methods take a u32); for those the operator
+        # semantics of C04 is the reference: with debug assertions every form whose amount type can hold the amount must panic
+        if group == 'sh' and ctx['dbg'] and (args[1] < 0 or args[1] >= 2 ** 32):
+            for fam, forms in fams.items():
+                if fam.startswith(('shl_', 'shr_')) and not fam.startswith(('shl_bnum', 'shr_bnum')):
+                    for form, o in forms.items():
+                        if o is not None:
+                            out.append(('%s.%s panics for an amount outside u32 (debug assertions)' % (fam, form), o == PANIC, '%s.%s=%r for amount %d' % (fam, form, o, args[1])))
         # shift families: every form equals the by-value form; and the by-value form equals the inherent when the amount is a u32
         for nm in ('shl', 'shr'):
             inh = fams.get(nm, {}).get('inherent')
